@@ -52,6 +52,12 @@ fn worker(n: usize) {
             let defs = [("ta", a), ("tb", b), ("tc", t)];
             for i in order { let _ = g.define_type(defs[i].0, Type::Value(ValueType::Defined(defs[i].1))); }
         }
+        // several dependants defined BEFORE their common base type (the base's dependency edges are added when it arrives)
+        if c % 4 == 1 {
+            let base = g.types_mut().add_defined_type(DefinedType::Alias(ValueType::Primitive(PrimitiveType::U32)));
+            for k in 0..6 { let l = g.types_mut().add_defined_type(DefinedType::List(ValueType::Defined(base))); let _ = g.define_type(format!("dep{k}"), Type::Value(ValueType::Defined(l))); }
+            let _ = g.define_type("base", Type::Value(ValueType::Defined(base)));
+        }
         let mut funcs: Vec<NodeId> = vec![];
         for x in 0..r.below(3) { funcs.push(g.import(format!("x{x}"), ItemKind::Func(fty)).unwrap()); }
         let mut insts: Vec<(NodeId, usize)> = vec![];
@@ -65,6 +71,17 @@ fn worker(n: usize) {
             insts.push((inst, k));
         }
         for e in 0..r.below(4) { if !funcs.is_empty() { let _ = g.export(funcs[r.below(funcs.len())], format!("out{e}")); } }
+        // removal histories: an instance with several exported aliases is removed (with its dependants), then new
+        // independent nodes are created (identifiers are reused) and the survivors keep their exports
+        if c % 3 == 2 {
+            let victim = g.instantiate(pids[0]);
+            let al: Vec<NodeId> = ["f", "g"].iter().map(|n| g.alias_instance_export(victim, n).unwrap()).collect();
+            for (i, a) in al.iter().enumerate() { let _ = g.export(*a, format!("gone{i}")); }
+            let keep = g.instantiate(pids[1]); let kh = g.alias_instance_export(keep, "h").unwrap(); let _ = g.export(kh, "kept-a");
+            let keep2 = g.instantiate(pids[2]); let kh2 = g.alias_instance_export(keep2, "h").unwrap(); let _ = g.export(kh2, "kept-b");
+            if c % 2 == 0 { g.remove_node(victim); } else { g.unregister_package(pids[0]); let p = Package::from_bytes("t:k", None, pkgs[0].1.clone(), g.types_mut()).unwrap(); pids[0] = g.register_package(p).unwrap(); }
+            for k in 0..3 { let n = g.instantiate(pids[3]); let a = g.alias_instance_export(n, "k").unwrap(); let _ = g.export(a, format!("fresh{k}")); }
+        }
         for define in [true, false] {
             let digest = |g: &CompositionGraph| match g.encode(EncodeOptions { define_components: define, validate: false, processor: None }) { Ok(b) => format!("ok {:016x} {}", fnv(&b), b.len()), Err(e) => format!("err {:016x} {}", fnv(format!("{e:#}").as_bytes()), format!("{e}").chars().take(60).collect::<String>()) };
             let (d1, d2) = (digest(&g), digest(&g));
